@@ -169,6 +169,49 @@ func genInputs(kind string, seed int64, n int) []N {
 				add(s + o)
 			}
 		}
+	case "contexts":
+		// faults provoked in every execution context a script can create: spawned threads (three spawn forms,
+		// nested), callbacks inside builtins, deferred functions, error handlers, default-parameter expressions
+		faults := []string{
+			"over(0)",                      // frame stack overflow (a recovered Go panic on the main thread)
+			"[1, 2][5]",                    // ordinary run-time error
+			"error(\"boom\")",              // raised error value
+			"1 / 0",                        // division by zero
+			"nil.x",                        // attribute of nil
+			"cl := chan()\nclose(cl)\nclose(cl)", // close of a closed channel
+			"cl := chan()\nclose(cl)\ncl <- 1",   // send on a closed channel
+			"over.spawn(0).wait()",         // a thread inside this context
+			"string(over)",
+			"[over].map(func(f) { f(0) })",
+		}
+		contexts := []string{
+			"%s",
+			"t := spawn(func() {\n%s\n})\nt.wait()",
+			"t := func() {\n%s\n}.spawn()\nt.wait()",
+			"go func() {\n%s\n}()\ntime.sleep(0.15)",
+			"spawn(func() {\n%s\n})\ntime.sleep(0.15)",
+			"t := spawn(func() {\nu := spawn(func() {\n%s\n})\nu.wait()\n})\nt.wait()",
+			"t := spawn(func() {\ngo func() {\n%s\n}()\ntime.sleep(0.1)\n})\nt.wait()",
+			"[1].each(func(x) {\n%s\n})",
+			"sorted([2, 1], func(a, b) {\n%s\n})",
+			"try(func() {\n%s\n})",
+			"try(func() { error(\"e\") }, func(e) {\n%s\n})",
+			"func d() {\ndefer func() {\n%s\n}()\nreturn 1\n}\nd()",
+			"t := spawn(func() {\ndefer func() {\n%s\n}()\nreturn 1\n})\nt.wait()",
+			"func p(a=1) {\n%s\n}\nspawn(p).wait()",
+			"t := spawn(func() {\ntry(func() {\n%s\n})\n})\nt.wait()\nt.wait()",
+			"ts := []\nfor i := 0; i < 4; i++ {\nts.append(spawn(func() {\n%s\n}))\n}\nfor _, t := range ts {\ntry(func() { t.wait() })\n}",
+		}
+		for _, c := range contexts {
+			for _, f := range faults {
+				add("import time\nfunc over(n) { return over(n + 1) }\n" + fmt.Sprintf(c, f))
+			}
+		}
+		for _, s := range []string{"spawn(1)", "spawn()", "spawn(nil)", "spawn(func() {}, 1, 2, 3)", "spawn(len)", "len.spawn([1])", "spawn(spawn, spawn)",
+			"t := spawn(func() { return 1 })\nt.wait(1)", "go 1", "go len", "go len([1])", "go func() {}", "c := chan(-1)", "c := chan(\"a\")", "close(1)", "close(nil)",
+			"c := chan(1)\nc <- c\n<-c", "c := chan()\nspawn(func() { c <- 1 })\nclose(c)\ntime.sleep(0.05)"} {
+			add("import time\n" + s)
+		}
 	case "deep":
 		for _, d := range []int{10, 1000, 5000} {
 			add(strings.Repeat("(", d) + "1" + strings.Repeat(")", d))
